@@ -507,8 +507,11 @@ class Report:
             "wall_s": round(wall, 2),
             "violations": len(self.violations),
         }
-        os.makedirs(os.path.join(VERIF, "evidence"), exist_ok=True)
-        with open(os.path.join(VERIF, "evidence", self.pid + ".json"), "w") as f:
+        # VERIF_EVIDENCE_DIR: runs against a mutated scratch tree (tools/try_seed_wt.sh) must not overwrite
+        # the evidence of the unchanged tree
+        evdir = os.environ.get("VERIF_EVIDENCE_DIR") or os.path.join(VERIF, "evidence")
+        os.makedirs(evdir, exist_ok=True)
+        with open(os.path.join(evdir, self.pid + ".json"), "w") as f:
             json.dump(ev, f, indent=1, default=str)
         for k in self.known:
             print("KNOWN-FINDING: property=%s %s" % (self.pid, k))
